@@ -131,6 +131,36 @@ def run_c18_vsl(interp, c):
     lemma(c, "clamping at zero preserves that monotonicity", T.implies(T.le(V1, V2), T.le(M.clamp0(s1), M.clamp0(s2))))
 
 
+def run_c18_element(interp, c):
+    """element level: a speed-limited link whose limits are neutral has, segment by segment, the
+    equilibrium speed (hence, by the proved postcondition of Link.step_dynamics, the next state)
+    of a plain link with the same parameters and state"""
+    net = G.GhostNet(interp)
+    l = T.var("l", T.REF)
+    c.axiom(G.link_in_net(l))
+    net.link_facts(l)
+    N = G.f_N(l)
+    i = c.fresh_index(N, "k")
+    lst = G.vsl_of(l)
+    p = lst.pos(i)
+    Vplain = M.veq(G.st_rho(l, i), V.fld("v_free", l), V.fld("rho_crit", l), V.fld("a", l))
+    is_vsl = T.eq(G.cls_tag(l), G.TAGS["LinkWithVsl"])
+    neutral = T.implies(T.le(0, p), T.le(Vplain, (1 + V.fld("alpha", l)) * G.act_vsl(l, p)))
+    lemma(c, "a speed-limited link with neutral limits has the equilibrium speed of a plain link on every segment",
+          T.implies(T.and_(is_vsl, neutral), T.eq(V.link_veq_at(l, i), Vplain)))
+    lemma(c, "a speed-limited link without signs has the equilibrium speed of a plain link",
+          T.implies(T.and_(is_vsl, T.eq(lst.n, 0)), T.eq(V.link_veq_at(l, i), Vplain)))
+    lemma(c, "a speed limit never raises the equilibrium speed of any segment", T.le(V.link_veq_at(l, i), Vplain))
+    tau, eta, kappa, T_ = (rv(x) for x in ("tau", "eta", "kappa", "T"))
+    c.assume(T.lt(0, tau))
+    c.assume(T.lt(0, T_))
+    # the next speed is the same function of V for both classes: compare through the spec term
+    full = V.link_next_speed_at(l, i, tau, eta, kappa, T_, None, None, T.FALSE)
+    plain = T.substitute(full, {V.link_veq_at(l, i): Vplain})
+    lemma(c, "hence a finite limit never raises the next speed of any segment", T.le(full, plain))
+    lemma(c, "... and neutral limits leave the next speed unchanged", T.implies(T.and_(is_vsl, neutral), T.eq(full, plain)))
+
+
 # ---- C02 / C14: sums over the leaving links -------------------------------------------------------
 def run_node_balance(interp, c):
     """sum over the leaving links of their inflow shares = the node's total inflow (C02), by
@@ -248,6 +278,33 @@ def run_footprint(interp, c):
         t2 = VC.decide_conditions(VC._augment(hy, None, False), t2, log)
         for rd in reads(t2):
             lemma(c, f"{name} reads only its own and the adjacent segments' state ({rd.op[3:]})", T.implies(interior, owner_ok(rd, allowed)))
+    # first segment: own state, the node inflow terms (last segments of the entering links, inside
+    # the sums; the node's origin and the first segment of the origin's link = this link's node)
+    o_up = G.origin_of(nu)
+    first_allowed = [("uf:st.rho", l, None), ("uf:st.v", l, None)] + [(op, o_up, None) for op in STATE_UFS if op.startswith("uf:sc.")] \
+        + [("uf:st.rho", G.out_link(nu, T.const(0, INT)), T.const(0, INT)), ("uf:st.v", G.out_link(nu, T.const(0, INT)), T.const(0, INT)), ("uf:act.v_ctrl", l, None)]
+    hy0 = list(c.axioms.values()) + c.hyps + [T.eq(i, 0), T.le(2, N)]
+    for name, term in (("next density of the first segment", rho_next), ("next speed of the first segment", v_next)):
+        t2 = VC.simplify_goal(hy0, T.eq(term, rv("dummy")))
+        t2 = VC.decide_conditions(VC._augment(hy0, None, False), t2, [])
+        for rd in reads(t2):
+            okk = owner_ok(rd, first_allowed)
+            if len(rd.args) > 1 and rd.op in ("uf:st.rho", "uf:st.v"):
+                r_ = rd.args[0]
+                own = T.and_(T.eq(r_, l), T.or_(T.eq(rd.args[1], 0), T.eq(rd.args[1], 1)))
+                # syntactically an entry of the upstream node's in-link list, at its last segment
+                entering_last = T.and_(T.eq(r_.args[0], nu), T.eq(rd.args[1], T.sub(G.f_N(r_), 1))) if r_.op == "uf:in_link" else T.FALSE
+                origin_link = T.and_(T.eq(r_, G.out_link(G.node_of_origin(o_up), T.const(0, INT))), T.eq(rd.args[1], 0))
+                okk = T.or_(own, entering_last, origin_link)
+            lemma(c, f"{name} (link of two or more segments) reads only: its own first two segments, last segments of links entering its upstream node, that node's origin and the first segment of the origin's link ({rd.op[3:]})",
+                  T.implies(T.and_(T.eq(i, 0), T.le(2, N)), okk))
+        # inside the sums: only the last segments of the links entering the upstream node
+        for sm in VC.collect([t2], lambda t: t.op == "sum"):
+            for rd in VC.collect([sm.args[0]], lambda t: t.op in STATE_UFS):
+                ok_in = T.FALSE
+                if rd.op in ("uf:st.rho", "uf:st.v") and rd.args[0].op == "uf:in_link":
+                    ok_in = T.and_(T.eq(rd.args[0].args[0], nu), T.eq(rd.args[1], T.sub(G.f_N(rd.args[0]), 1)))
+                lemma(c, f"{name}: the sums over the entering links read only their last segments ({rd.op[3:]})", T.implies(T.le(2, N), ok_in))
     # a segment's speed limit entry: only the sign of that segment
     lst = G.vsl_of(l)
     p = lst.pos(i)
@@ -317,6 +374,7 @@ def all_tasks():
         Task("lemma:mainstream-flow-vs-Hegyi", run_c01_mainstream_hegyi, props=("C01",), func="EngineSpec.origins.get_mainstream_flow"),
         Task("lemma:neutral-controls(origins)", run_c18_prims, props=("C18",), func="EngineSpec.origins.*"),
         Task("lemma:neutral-controls(speed limits)", run_c18_vsl, props=("C18",), func="EngineSpec.links.controlled_Veq/step_speed"),
+        Task("lemma:neutral-controls(LinkWithVsl)", run_c18_element, props=("C18",), func="LinkWithVsl.step_dynamics (postcondition)"),
         Task("lemma:node-balance-and-scaling", run_node_balance, props=("C02", "C14"), func="Node.get_upstream_speed_and_flow (postcondition)"),
         Task("lemma:link-balance", run_link_balance, props=("C02",), func="EngineSpec.links.step_density / origins.step_queue"),
         Task("lemma:footprints", run_footprint, props=("C10",), func="Link.step_dynamics / origin step_dynamics (postconditions)"),
